@@ -17,6 +17,18 @@ import (
 	"golang.org/x/tools/go/cfg"
 )
 
+// allGuardKeys: canonical guard keys of the emission and of its single-caller chain.
+func (st *c12State) allGuardKeys(e *Emission) []string {
+	keys := append([]string{}, e.GuardKeys...)
+	cxs := st.guardCtxs(e)
+	for _, cx := range cxs[:len(cxs)-1] {
+		for _, gd := range cx.guards {
+			keys = append(keys, condKeys(cx.g.Info, gd.Cond, gd.Pol)...)
+		}
+	}
+	return keys
+}
+
 // emuSat: can the guard set hold under EMU?
 func (st *c12State) emuSat(gk []string) (bool, string) {
 	for _, k := range gk {
@@ -36,30 +48,56 @@ func (st *c12State) emuSat(gk []string) (bool, string) {
 	return true, ""
 }
 
-// holeArgs: the non-constant format arguments of an emission, in hole order.
+// holeArgs: the non-constant format arguments of an emission, in hole order. The format call is found
+// through the sink itself (writer.Printf, fmt.Fprintf(w, …)) or, for plain string sinks, by following the
+// argument (through single-definition locals) to fmt.Sprintf or a repository wrapper that forwards
+// (format, args...) to it.
 func c12HoleArgs(p *Program, e *Emission) []ast.Expr {
 	info := e.Fn.Pkg.TypesInfo
 	var args []ast.Expr
-	switch {
-	case strings.Contains(e.Sink, "Printf"):
-		for i, a := range e.Call.Args {
-			if a == e.ArgExpr {
-				args = e.Call.Args[i+1:]
+	isFmt := false
+	if ai, f, _, ok := vaxisTerminalSink(e.Fn.Pkg, e.Call, calleeOf(info, e.Call)); ok && f && ai < len(e.Call.Args) {
+		isFmt = true
+		args = e.Call.Args[ai+1:]
+	}
+	if !isFmt {
+		x := unparen(e.ArgExpr)
+		for depth := 0; depth < 3; depth++ {
+			id, ok := x.(*ast.Ident)
+			if !ok {
+				break
 			}
+			def := c12SingleDef(e.Fn, info.ObjectOf(id))
+			if def == nil {
+				break
+			}
+			x = unparen(def)
 		}
-	default:
-		call, ok := unparen(e.ArgExpr).(*ast.CallExpr)
-		if !ok {
+		// conversions []byte(s), string(b)
+		for {
+			c, ok := x.(*ast.CallExpr)
+			if !ok || len(c.Args) != 1 {
+				break
+			}
+			if tv, ok := info.Types[c.Fun]; !ok || !tv.IsType() {
+				break
+			}
+			x = unparen(c.Args[0])
+		}
+		call, ok := x.(*ast.CallExpr)
+		if !ok || len(call.Args) == 0 {
 			return nil
 		}
 		fn := calleeOf(info, call)
-		fi := p.FuncOfObj(fn)
-		if fi == nil || len(call.Args) == 0 {
+		if fn == nil {
 			return nil
 		}
-		sig := fn.Type().(*types.Signature)
-		if !sig.Variadic() || sig.Params().Len() != 2 {
-			return nil
+		if fullName(fn) != "fmt.Sprintf" {
+			fi := p.FuncOfObj(fn)
+			sig := fn.Type().(*types.Signature)
+			if fi == nil || !sig.Variadic() || sig.Params().Len() != 2 {
+				return nil
+			}
 		}
 		args = call.Args[1:]
 	}
@@ -75,6 +113,40 @@ func c12HoleArgs(p *Program, e *Emission) []ast.Expr {
 
 // holeRange bounds an integer hole argument from the facts in force and its type.
 func c12HoleRange(e *Emission, arg ast.Expr) (lo, hi int64, ok bool) {
+	lo, hi, ok = c12HoleRange1(e, arg)
+	// the guards may speak about the expression a local was defined from (idx := ps[0]; guard ps[0] < 8)
+	info := e.Fn.Pkg.TypesInfo
+	base := unparen(arg)
+	var k int64
+	if b, isBin := base.(*ast.BinaryExpr); isBin && (b.Op == token.ADD || b.Op == token.SUB) {
+		if v, isC := constInt(info, b.Y); isC {
+			k = v
+			if b.Op == token.SUB {
+				k = -v
+			}
+			base = unparen(b.X)
+		}
+	}
+	if id, isId := base.(*ast.Ident); isId {
+		if def := c12SingleDef(e.Fn, info.ObjectOf(id)); def != nil {
+			if l2, h2, ok2 := c12HoleRange(e, def); ok2 {
+				l2, h2 = l2+k, h2+k
+				if !ok {
+					return l2, h2, true
+				}
+				if l2 > lo {
+					lo = l2
+				}
+				if h2 < hi {
+					hi = h2
+				}
+			}
+		}
+	}
+	return lo, hi, ok
+}
+
+func c12HoleRange1(e *Emission, arg ast.Expr) (lo, hi int64, ok bool) {
 	info := e.Fn.Pkg.TypesInfo
 	facts := c12Facts(e.G, e.Loc)
 	t, k := linForm(info, arg)
@@ -123,6 +195,51 @@ func c12HoleRange(e *Emission, arg ast.Expr) (lo, hi int64, ok bool) {
 	return tlo + k, thi + k, true
 }
 
+// c12GuardCtx: the guards that dominate an emission: its own, and — when the emitting function is a helper
+// with a single call site in its package — the guards at that call site (two levels).
+type c12GuardCtx struct {
+	fn     *FuncInfo
+	g      *FG
+	guards []Guard
+}
+
+func (st *c12State) guardCtxs(e *Emission) (res []c12GuardCtx) {
+	if st.ctxCache == nil {
+		st.ctxCache = map[*Emission][]c12GuardCtx{}
+	}
+	if c, ok := st.ctxCache[e]; ok {
+		return c
+	}
+	defer func() { st.ctxCache[e] = res }()
+	out := []c12GuardCtx{{e.Fn, e.G, e.G.Guards(e.Loc)}}
+	if e.FnName != e.Fn.Name {
+		return out // function literal: its guards are its own
+	}
+	cur := e.Fn
+	for level := 0; level < 2; level++ {
+		var sites []c12GuardCtx
+		for _, fi := range st.c.P.FuncsIn(shortPkg(cur.Pkg.PkgPath)) {
+			if fi == cur || fi.Decl.Body == nil {
+				continue
+			}
+			g := st.c.P.Graph(fi)
+			for _, h := range g.Calls(func(fn *types.Func, _ *ast.CallExpr) bool { return fn == cur.Obj }) {
+				sites = append(sites, c12GuardCtx{fi, g, g.Guards(h.Loc)})
+			}
+		}
+		if len(sites) != 1 {
+			break
+		}
+		out = append(out, sites[0])
+		cur = sites[0].fn
+	}
+	// outermost first, so that inner guards decide last
+	for i, j := 0, len(out)-1; i < j; i, j = i+1, j-1 {
+		out[i], out[j] = out[j], out[i]
+	}
+	return out
+}
+
 // styleIntent: what the renderer means by an SGR emission, derived from its dominating guards.
 type c12Intent struct {
 	kind  string     // "field" | "attr-set" | "attr-clear" | "reset" | ""
@@ -132,54 +249,111 @@ type c12Intent struct {
 }
 
 func (st *c12State) intentOf(e *Emission) c12Intent {
-	info := e.Fn.Pkg.TypesInfo
 	var it c12Intent
-	for _, gd := range e.G.Guards(e.Loc) {
-		if gd.Cond.Tag != nil || gd.Cond.Alts != nil {
-			continue
-		}
-		bx, by, ok := c12Differs(gd.Cond.Expr, gd.Pol)
-		if !ok {
-			continue
-		}
-		b := &ast.BinaryExpr{X: bx, Op: token.NEQ, Y: by}
-		// cursor.F != next.F
-		lf, rf := c12FieldOf(info, b.X), c12FieldOf(info, b.Y)
-		if lf != nil && lf == rf {
-			if it.kind == "" || it.kind == "field" {
-				it = c12Intent{kind: "field", field: lf, guard: canonExpr(info, b)}
-			}
-			continue
-		}
-		// X & C != 0
-		if z, isC := constInt(info, b.Y); isC && z == 0 {
-			and, ok := unparen(b.X).(*ast.BinaryExpr)
-			if !ok || and.Op != token.AND {
+	for _, cx := range st.guardCtxs(e) {
+		info := cx.fn.Pkg.TypesInfo
+		for _, gd := range cx.guards {
+			if gd.Cond.Tag != nil || gd.Cond.Alts != nil {
 				continue
 			}
-			m, isM := constInt(info, and.Y)
-			x := and.X
-			if !isM {
-				m, isM = constInt(info, and.X)
-				x = and.Y
-			}
-			if !isM {
-				continue
-			}
-			role := st.attrRole(e, x)
-			if role == "" {
-				continue
-			}
-			fld := st.attrField(e)
-			switch role {
-			case "on", "next":
-				it = c12Intent{kind: "attr-set", field: fld, mask: m, guard: canonExpr(info, b)}
-			case "off":
-				it = c12Intent{kind: "attr-clear", field: fld, mask: m, guard: canonExpr(info, b)}
+			for _, at := range c12GuardAtoms(gd.Cond.Expr, gd.Pol) {
+				// cursor.F != next.F
+				if bx, by, ok := c12Differs(at.e, at.pol); ok {
+					lf, rf := c12FieldOf(info, bx), c12FieldOf(info, by)
+					if lf != nil && lf == rf {
+						if it.kind == "" || it.kind == "field" {
+							it = c12Intent{kind: "field", field: lf, guard: canonExpr(info, &ast.BinaryExpr{X: bx, Op: token.NEQ, Y: by})}
+						}
+						continue
+					}
+				}
+				// X & C != 0
+				x, m, ok := c12MaskTest(info, at.e, at.pol)
+				if !ok {
+					continue
+				}
+				role := st.attrRole(cx.fn, x)
+				if role == "" {
+					continue
+				}
+				fld := st.attrField(e)
+				gkey := canonExpr(info, x) + "&" + fmt.Sprint(m) + "!=0"
+				switch role {
+				case "on", "next":
+					it = c12Intent{kind: "attr-set", field: fld, mask: m, guard: gkey}
+				case "off":
+					it = c12Intent{kind: "attr-clear", field: fld, mask: m, guard: gkey}
+				}
 			}
 		}
 	}
 	return it
+}
+
+// c12GuardAtoms splits a guard (condition with the polarity of the taken edge) into the atoms it implies:
+// conjuncts of a true &&, disjuncts of a false ||, through negations.
+type c12Atom struct {
+	e   ast.Expr
+	pol bool
+}
+
+func c12GuardAtoms(e ast.Expr, pol bool) []c12Atom {
+	e = unparen(e)
+	switch t := e.(type) {
+	case *ast.UnaryExpr:
+		if t.Op == token.NOT {
+			return c12GuardAtoms(t.X, !pol)
+		}
+	case *ast.BinaryExpr:
+		if (t.Op == token.LAND && pol) || (t.Op == token.LOR && !pol) {
+			return append(c12GuardAtoms(t.X, pol), c12GuardAtoms(t.Y, pol)...)
+		}
+	}
+	return []c12Atom{{e, pol}}
+}
+
+// c12MaskTest: does atom==pol state that (X & mask) is non-zero? Forms: X&m != 0, 0 != X&m, X&m > 0,
+// X&m == m (single bit), m&X …, and their negations with opposite polarity.
+func c12MaskTest(info *types.Info, e ast.Expr, pol bool) (x ast.Expr, mask int64, ok bool) {
+	b, isBin := unparen(e).(*ast.BinaryExpr)
+	if !isBin {
+		return nil, 0, false
+	}
+	l, r := unparen(b.X), unparen(b.Y)
+	op := b.Op
+	if _, lc := constInt(info, l); lc {
+		l, r = r, l
+		switch op {
+		case token.LSS:
+			op = token.GTR
+		case token.GTR:
+			op = token.LSS
+		}
+	}
+	and, isAnd := l.(*ast.BinaryExpr)
+	k, isK := constInt(info, r)
+	if !isAnd || and.Op != token.AND || !isK {
+		return nil, 0, false
+	}
+	m, isM := constInt(info, and.Y)
+	x = and.X
+	if !isM {
+		m, isM = constInt(info, and.X)
+		x = and.Y
+	}
+	if !isM || m == 0 {
+		return nil, 0, false
+	}
+	nonzero := false
+	switch {
+	case op == token.NEQ && k == 0 && pol, op == token.EQL && k == 0 && !pol:
+		nonzero = true
+	case op == token.GTR && k == 0 && pol:
+		nonzero = true
+	case op == token.EQL && k == m && m&(m-1) == 0 && pol, op == token.NEQ && k == m && m&(m-1) == 0 && !pol:
+		nonzero = true
+	}
+	return x, m, nonzero
 }
 
 // c12Differs: does cond==pol state `X != Y`? Returns the operands (handles !=, ==, !(...) and polarity).
@@ -239,8 +413,8 @@ func c12SingleDef(fi *FuncInfo, obj types.Object) ast.Expr {
 
 // attrRole classifies the operand X of `X & mask != 0` in render:
 // "next" = the attribute of the cell being drawn, "on" = bits newly set, "off" = bits newly cleared.
-func (st *c12State) attrRole(e *Emission, x ast.Expr) string {
-	info := e.Fn.Pkg.TypesInfo
+func (st *c12State) attrRole(fn *FuncInfo, x ast.Expr) string {
+	info := fn.Pkg.TypesInfo
 	x = unparen(x)
 	if f := c12FieldOf(info, x); f != nil {
 		if strings.HasPrefix(canonPath(info, x), "Cell.") {
@@ -252,7 +426,7 @@ func (st *c12State) attrRole(e *Emission, x ast.Expr) string {
 	if !ok {
 		return ""
 	}
-	def := c12SingleDef(e.Fn, info.ObjectOf(id))
+	def := c12SingleDef(fn, info.ObjectOf(id))
 	and, ok := unparen(def).(*ast.BinaryExpr)
 	if !ok || and.Op != token.AND {
 		return ""
@@ -267,7 +441,7 @@ func (st *c12State) attrRole(e *Emission, x ast.Expr) string {
 			return "off"
 		}
 		if oid, ok := op.(*ast.Ident); ok {
-			if d2 := c12SingleDef(e.Fn, info.ObjectOf(oid)); d2 != nil {
+			if d2 := c12SingleDef(fn, info.ObjectOf(oid)); d2 != nil {
 				if f := c12FieldOf(info, d2); f != nil {
 					if strings.HasPrefix(canonPath(info, d2), "Cell.") {
 						return "on"
@@ -282,28 +456,65 @@ func (st *c12State) attrRole(e *Emission, x ast.Expr) string {
 
 // attrField: the style field compared by the enclosing `cursor.F != next.F` guard.
 func (st *c12State) attrField(e *Emission) *types.Var {
-	info := e.Fn.Pkg.TypesInfo
 	var out *types.Var
-	for _, gd := range e.G.Guards(e.Loc) {
-		if gd.Cond.Tag != nil || gd.Cond.Alts != nil {
-			continue
-		}
-		if bx, by, ok := c12Differs(gd.Cond.Expr, gd.Pol); ok {
-			if lf, rf := c12FieldOf(info, bx), c12FieldOf(info, by); lf != nil && lf == rf {
-				out = lf
+	for _, cx := range st.guardCtxs(e) {
+		info := cx.fn.Pkg.TypesInfo
+		for _, gd := range cx.guards {
+			if gd.Cond.Tag != nil || gd.Cond.Alts != nil {
+				continue
+			}
+			for _, at := range c12GuardAtoms(gd.Cond.Expr, gd.Pol) {
+				if bx, by, ok := c12Differs(at.e, at.pol); ok {
+					if lf, rf := c12FieldOf(info, bx), c12FieldOf(info, by); lf != nil && lf == rf {
+						out = lf
+					}
+				}
 			}
 		}
 	}
 	return out
 }
 
-// frame phases whose bytes determine what the emulator shows
-func c12VisualPhase(fn string) bool {
-	switch phaseOf(fn) {
+// visual: the emission belongs to the bytes that determine what the emulator shows: the frame and
+// alt-screen-entry phases, and helpers of package vaxis that only those phases call.
+func (st *c12State) visual(e *Emission) bool {
+	switch phaseOf(e.FnName) {
 	case "frame", "alt-enter":
 		return true
+	case "api":
+	default:
+		return false
 	}
-	return false
+	if st.frameReach == nil {
+		st.frameReach = map[string]bool{}
+		other := map[string]bool{}
+		for _, fi := range st.c.P.FuncsIn("vaxis") {
+			switch phaseOf(fi.Name) {
+			case "frame", "alt-enter":
+				for n := range staticReach(st.c.P, fi) {
+					st.frameReach[n] = true
+				}
+			case "api":
+			default:
+				for n := range staticReach(st.c.P, fi) {
+					other[n] = true
+				}
+			}
+		}
+		// helpers shared with the probe/enable/disable phases are not frame-only… but they are still
+		// written during frames, so they stay in; only exported API entry points are excluded
+		for n := range st.frameReach {
+			if fi := st.c.P.Func(n); fi != nil && fi.Decl.Name.IsExported() && phaseOf(n) == "api" {
+				delete(st.frameReach, n)
+			}
+		}
+		_ = other
+	}
+	base := e.FnName
+	if i := strings.Index(base, "$"); i >= 0 {
+		base = base[:i]
+	}
+	return st.frameReach[base] && e.FnName == base
 }
 
 var c12NonVisual = map[string]string{
@@ -328,20 +539,25 @@ func (st *c12State) vocabulary() {
 		"vaxis.(*Vaxis).render":       "cell grapheme: printable text, handled by the emulator's print (C12.e coordinate chain)",
 	}
 	st.sgrEffects = map[string][]c12Effect{}
+	if st.seen == nil {
+		st.seen = map[string]bool{}
+	}
 	for _, e := range st.ems {
-		if !c12VisualPhase(e.FnName) {
+		if !st.visual(e) {
 			continue
 		}
 		if !e.Resolved {
 			key := fmt.Sprintf("%s/pass-through %s", e.FnName, types.ExprString(e.ArgExpr))
 			if why, ok := passThrough[e.FnName]; ok {
 				c.okTrivial("C12.a", key, e.Call.Pos(), "%s", why)
+			} else if st.isCellText(e.Fn, e.ArgExpr, 0) {
+				c.okTrivial("C12.a", key, e.Call.Pos(), "cell grapheme: printable text, handled by the emulator's print (C12.e coordinate chain)")
 			} else {
 				c.undecided("C12.a", key, e.Call.Pos(), "frame-phase write whose bytes are not a template set: %s", e.Why)
 			}
 			continue
 		}
-		if sat, why := st.emuSat(e.GuardKeys); !sat {
+		if sat, why := st.emuSat(st.allGuardKeys(e)); !sat {
 			c.okTrivial("C12.a", fmt.Sprintf("%s/%q outside the emulator's capability set", e.FnName, strings.Join(e.Templates, "|")), e.Call.Pos(), "%s", why)
 			continue
 		}
@@ -448,6 +664,22 @@ func (st *c12State) checkSeq(e *Emission, s Seq, h0 int, args []ast.Expr) {
 				substs = next
 			}
 		}
+	}
+	switch {
+	case s.Kind == "CSI" && s.Final == "H" && s.Private == "":
+		st.seen["cursor addressing (CUP)"] = true
+	case s.Kind == "CSI" && s.Private == "?" && s.Params == "25" && s.Final == "h":
+		st.seen["cursor visibility set"] = true
+	case s.Kind == "CSI" && s.Private == "?" && s.Params == "25" && s.Final == "l":
+		st.seen["cursor visibility reset"] = true
+	case s.Kind == "CSI" && s.Inter == " " && s.Final == "q":
+		st.seen["cursor style (DECSCUSR)"] = true
+	case s.Kind == "OSC" && s.OSCSel == "8" && c12CountHoles(s.Raw) > 0:
+		st.seen["hyperlink open (OSC 8 with parameters)"] = true
+	case s.Kind == "OSC" && s.OSCSel == "8":
+		st.seen["hyperlink close (OSC 8 empty)"] = true
+	case s.Kind == "CSI" && s.Final == "m" && s.Private == "":
+		st.seen["SGR"] = true
 	}
 	intent := c12Intent{}
 	isSGR := s.Kind == "CSI" && s.Final == "m" && s.Private == "" && s.Inter == ""
@@ -559,6 +791,16 @@ func (st *c12State) checkSGREffect(e *Emission, s Seq, label string, sub map[int
 		c.undecided("C12.e", key, e.Call.Pos(), "the emulator's SGR handling of %q depends on its state (%d paths)", label, len(paths))
 		return
 	}
+	switch intent.kind {
+	case "field":
+		st.seen["SGR for field "+intent.field.Name()] = true
+	case "attr-set":
+		st.seen["SGR attribute set"] = true
+	case "attr-clear":
+		st.seen["SGR attribute clear"] = true
+	case "reset":
+		st.seen["SGR end-of-frame reset"] = true
+	}
 	effs := c12StyleEffects(paths[0])
 	st.sgrEffects[e.FnName+"|"+label+"|"+strings.Join(e.GuardKeys, " ")] = effs
 	fields := map[*types.Var]bool{}
@@ -650,10 +892,10 @@ func (st *c12State) sgrFields() map[*types.Var]bool {
 	}
 	st.sgrFieldSet = map[*types.Var]bool{}
 	for _, e := range st.ems {
-		if !c12VisualPhase(e.FnName) || !e.Resolved {
+		if !st.visual(e) || !e.Resolved {
 			continue
 		}
-		if sat, _ := st.emuSat(e.GuardKeys); !sat {
+		if sat, _ := st.emuSat(st.allGuardKeys(e)); !sat {
 			continue
 		}
 		isSGR := false
@@ -674,10 +916,34 @@ func (st *c12State) sgrFields() map[*types.Var]bool {
 }
 
 // compensated: some emission under the same off-guard and `next.Attribute & b != 0` sets bit b in the emulator.
+// maskAtoms: the (role, mask) attribute tests that dominate an emission.
+func (st *c12State) maskAtoms(e *Emission) map[string]bool {
+	out := map[string]bool{}
+	for _, cx := range st.guardCtxs(e) {
+		info := cx.fn.Pkg.TypesInfo
+		for _, gd := range cx.guards {
+			if gd.Cond.Tag != nil || gd.Cond.Alts != nil {
+				continue
+			}
+			for _, at := range c12GuardAtoms(gd.Cond.Expr, gd.Pol) {
+				if x, m, ok := c12MaskTest(info, at.e, at.pol); ok {
+					if role := st.attrRole(cx.fn, x); role != "" {
+						out[fmt.Sprintf("%s&%d", role, m)] = true
+					}
+				}
+			}
+		}
+	}
+	return out
+}
+
 func (st *c12State) compensated(e *Emission, intent c12Intent, b int64) bool {
-	want := fmt.Sprintf("Cell.Attribute&%d!=0", b)
 	for _, e2 := range st.ems {
-		if e2.FnName != e.FnName || !e2.Resolved || !containsStr(e2.GuardKeys, intent.guard) || !containsStr(e2.GuardKeys, want) {
+		if e2.FnName != e.FnName || !e2.Resolved {
+			continue
+		}
+		ma := st.maskAtoms(e2)
+		if !ma[fmt.Sprintf("off&%d", intent.mask)] || !ma[fmt.Sprintf("next&%d", b)] {
 			continue
 		}
 		for _, t := range e2.Templates {
@@ -714,6 +980,38 @@ func (st *c12State) colourArgs(e *Emission, app c12App, sub map[int]int64, args 
 					k = -v
 				}
 				t = unparen(b.X)
+			}
+		}
+		// a local that names the element (idx := ps[0]), possibly with its own offset
+		for depth := 0; depth < 3; depth++ {
+			id, isId := t.(*ast.Ident)
+			if !isId {
+				break
+			}
+			def := c12SingleDef(e.Fn, info.ObjectOf(id))
+			if def == nil {
+				break
+			}
+			t = unparen(def)
+			if b, ok := t.(*ast.BinaryExpr); ok && (b.Op == token.ADD || b.Op == token.SUB) {
+				if v, isC := constInt(info, b.Y); isC {
+					if b.Op == token.SUB {
+						v = -v
+					}
+					k += v
+					t = unparen(b.X)
+				}
+			}
+			// conversions int(x), uint8(x)
+			for {
+				c, isCall := t.(*ast.CallExpr)
+				if !isCall || len(c.Args) != 1 {
+					break
+				}
+				if tv, ok := info.Types[c.Fun]; !ok || !tv.IsType() {
+					break
+				}
+				t = unparen(c.Args[0])
 			}
 		}
 		ix, ok := t.(*ast.IndexExpr)
@@ -988,4 +1286,73 @@ func c12AssignedSince(g *FG, gd Guard, l Loc, objs map[types.Object]bool) bool {
 		}
 	}
 	return false
+}
+
+// isCellText: the expression is the Grapheme of a cell (vaxis.Character.Grapheme), possibly through a
+// single-definition local or a parameter whose single call site passes such a value.
+func (st *c12State) isCellText(fn *FuncInfo, e ast.Expr, depth int) bool {
+	info := fn.Pkg.TypesInfo
+	e = unparen(e)
+	if f := c12FieldOf(info, e); f != nil {
+		pk := st.c.P.Pkg("vaxis")
+		if o := pk.Types.Scope().Lookup("Character"); o != nil {
+			if stt, ok := o.Type().Underlying().(*types.Struct); ok {
+				for i := 0; i < stt.NumFields(); i++ {
+					if stt.Field(i) == f && stt.Field(i).Type().String() == "string" {
+						return true
+					}
+				}
+			}
+		}
+		return false
+	}
+	id, ok := e.(*ast.Ident)
+	if !ok || depth > 2 {
+		return false
+	}
+	obj := info.ObjectOf(id)
+	if def := c12SingleDef(fn, obj); def != nil {
+		return st.isCellText(fn, def, depth+1)
+	}
+	// parameter: look at the single call site
+	idx := -1
+	n := 0
+	for _, f := range fn.Decl.Type.Params.List {
+		for _, nm := range f.Names {
+			if info.Defs[nm] == obj {
+				idx = n
+			}
+			n++
+		}
+	}
+	if idx < 0 {
+		return false
+	}
+	var sites []struct {
+		fi *FuncInfo
+		a  ast.Expr
+	}
+	for _, fi := range st.c.P.FuncsIn(shortPkg(fn.Pkg.PkgPath)) {
+		if fi.Decl.Body == nil {
+			continue
+		}
+		ast.Inspect(fi.Decl.Body, func(x ast.Node) bool {
+			if call, ok := x.(*ast.CallExpr); ok && calleeOf(fi.Pkg.TypesInfo, call) == fn.Obj && idx < len(call.Args) {
+				sites = append(sites, struct {
+					fi *FuncInfo
+					a  ast.Expr
+				}{fi, call.Args[idx]})
+			}
+			return true
+		})
+	}
+	if len(sites) == 0 {
+		return false
+	}
+	for _, s := range sites {
+		if !st.isCellText(s.fi, s.a, depth+1) {
+			return false
+		}
+	}
+	return true
 }
